@@ -122,6 +122,10 @@ func (g *Gen) addGlobal(v *Var) {
 
 // Generate builds a whole compute module.
 func (g *Gen) Generate() *Program {
+	if g.on("profile.nest") && g.R.Chance(1, 6) {
+		g.nest = true
+		g.feat("profile.nest")
+	}
 	r := g.R
 	// --- structs & resources ---
 	nb := 0
